@@ -225,6 +225,42 @@ pub fn run(args: &Args) -> Report {
                 rep.fail(kind, input.clone(), format!("significant token #{k}: input {:?}, output {:?} ({} vs {} tokens); {}", a.get(k), b.get(k), a.len(), b.len(), only_in.join("; ")));
             }
         }
+        // uninterpreted IF_DATA keeps integers of up to 64 bits exactly (the generic comparison above looks at f64 values)
+        if *fam == "with-ifdata" {
+            // per number token: Some(value) for an integer literal, None for a literal in float notation
+            let nums = |s: &str| -> Option<Vec<Option<i128>>> {
+                let a = s.find("/begin IF_DATA VENDOR_X")?;
+                let b = a + s[a..].find("/end IF_DATA")?;
+                Some(
+                    s[a..b]
+                        .split_whitespace()
+                        .filter_map(|t| {
+                            if t.len() > 2 && (t.starts_with("0x") || t.starts_with("0X")) {
+                                u128::from_str_radix(&t[2..], 16).ok().map(|v| Some(v as i128))
+                            } else if let Ok(v) = t.parse::<i128>() {
+                                Some(Some(v))
+                            } else if t.parse::<f64>().is_ok() {
+                                Some(None)
+                            } else {
+                                None
+                            }
+                        })
+                        .collect(),
+                )
+            };
+            if let (Some(x), Some(y)) = (nums(text), nums(&w)) {
+                if x.len() == y.len() {
+                    for k in 0..x.len() {
+                        if let Some(v) = x[k] {
+                            if v >= i64::MIN as i128 && v <= u64::MAX as i128 && y[k] != Some(v) {
+                                rep.fail("ifdata-number-changed", input.clone(), format!("number #{k} of the uninterpreted IF_DATA content: input {v}, output {:?}", y[k]));
+                                break;
+                            }
+                        }
+                    }
+                }
+            }
+        }
         // comments between block-level elements are kept (as a multiset: sorting may move them with their element)
         let (mut x, mut y) = (ca.clone(), cb.clone());
         x.sort();
